@@ -10,7 +10,10 @@ model/Tuner.v ``run`` (chk_run, vm_compute). The independent Python checker ``tu
 judges every implementation trace: nothing started / no loop body after the condition held, on_tuning_end
 and stop_all exactly once, no worker InProgress after run() returns (also when it raises), counters equal
 the numbers of trials per status, overshoot of count budgets, failure limit, no suggest after None.
-Driver (b): real schedulers on the ScriptedBackend, judged by the same checker."""
+Driver (b): real schedulers on the ScriptedBackend, judged by the same checker. Stream (c) (harness/tuner_sim.py):
+the real SimulatorBackend + SimulatorCallback with criteria that combine max_wallclock_time with the other fields;
+at every iteration end the ORIGINAL user criterion is re-evaluated from recorded observables (wall-clock = simulated
+time of delivered results): once it holds the loop must end / nothing may be started, overshoot <= n_workers."""
 import tuner_cases as tc
 
 
@@ -25,6 +28,9 @@ def run(ctx, replay=None):
         if replay.get("kind") == "real":
             import tuner_real
             tuner_real.run_real(ctx, tc.check_c12, [replay])
+        elif replay.get("kind") == "sim":
+            import tuner_sim
+            tuner_sim.run_sim(ctx, [replay], prop="C12")
         else:
             tc.scripted_runs(ctx, [replay], tc.check_c12, "C12")
         return
@@ -34,3 +40,7 @@ def run(ctx, replay=None):
     tc.scripted_runs(ctx, cases, tc.check_c12, "C12")
     import tuner_real
     tuner_real.run_real(ctx, tc.check_c12, None)
+    # stream (c): real SimulatorBackend + SimulatorCallback, criteria combining max_wallclock_time (rewritten onto
+    # simulated time by the callback) with the other fields; the user's criterion is re-evaluated independently
+    import tuner_sim
+    tuner_sim.run_sim(ctx, None, prop="C12")
